@@ -61,7 +61,12 @@ pub fn triangle_order_outline(t: Triangle, q: Point) {
     let mut seen3 = 0u32;
     for p in Triangle::new(b, a, c).points() { if p == q { seen3 += 1; } }
     check!(seen2 == seen && seen3 == seen, "C19.order");
-    // a one-pixel outline consists of the three edge lines
+}
+
+/// a one-pixel outline consists of the three edge lines (stroked triangles run through the join code)
+pub fn triangle_outline(t: Triangle, q: Point) {
+    note!("triangle", t);
+    let [a, b, c] = t.vertices;
     let mut outline = 0u32;
     for Pixel(p, _) in t.into_styled(PrimitiveStyle::with_stroke(Gray8::new(1), 1)).pixels() { if p == q { outline += 1; } }
     let mut on_edge = false;
@@ -77,6 +82,7 @@ macro_rules! c19_g_tri {
             let q = point(5);
             note!("q", q);
             $( if $which == 0 { triangle_claims(Triangle::new(Point::new($ax, $ay), Point::new($bx, $by), Point::new($cx, $cy)), q); }
+               else if $which == 2 { triangle_outline(Triangle::new(Point::new($ax, $ay), Point::new($bx, $by), Point::new($cx, $cy)), q); }
                else { triangle_order_outline(Triangle::new(Point::new($ax, $ay), Point::new($bx, $by), Point::new($cx, $cy)), q); } )+
             reach!(true, "reach.end");
         }
@@ -87,6 +93,8 @@ macro_rules! c19_g_tri {
 c19_g_tri!(c05_c19_q_g_tri_a, 0, 24, [((0, 0), (4, 1), (1, 3))]);
 c19_g_tri!(c05_c19_q_g_tri_flat, 0, 24, [((2, 2), (2, 2), (5, 3))]);
 c19_g_tri!(c19_q_g_tri_a_order, 1, 24, [((0, 0), (4, 1), (1, 3))]);
+#[cfg(feature = "thorough")]
+c19_g_tri!(c19_t_g_tri_outline, 2, 24, [((0, 0), (3, 0), (1, 2)), ((0, 0), (4, 1), (1, 3))]);
 #[cfg(feature = "thorough")]
 c19_g_tri!(c05_c19_t_g_tri_b, 0, 40, [((0, 0), (5, 1), (2, 5)), ((-3, -2), (2, 3), (-4, 4))]);
 #[cfg(feature = "thorough")]
